@@ -498,7 +498,7 @@ class MappingProperty:
     rule = ("one evaluation = one seeded history of item get/set/del on the document, nested sets and the scope mapping with restarts; "
             "distinct = distinct hash of (model state, operation, target mapping, keys)")
 
-    def __init__(self, quick_runs=5000, thorough_runs=100000):
+    def __init__(self, quick_runs=30000, thorough_runs=400000):
         self.pid = "C14"
         self.runs = {"quick": quick_runs, "thorough": thorough_runs}
 
